@@ -301,6 +301,35 @@ func init() {
 						}
 					}
 				}
+				// the same encoder under percent-encode-single-percent-sign: as above, and a '%' that does not start an escape
+				// (in the code points of the string) is written %25
+				{
+					sc := cfgFromDesc("singlePct")
+					sc.Ensure(d)
+					enc2 := sc.Parser.PercentEncodeString(s, set)
+					rs := []rune(s)
+					var wb2 strings.Builder
+					for k, x := range rs {
+						switch {
+						case in(x):
+							var buf [4]byte
+							n := utf8.EncodeRune(buf[:], x)
+							for _, b := range buf[:n] {
+								fmt.Fprintf(&wb2, "%%%02X", b)
+							}
+						case x == '%' && !(k+2 < len(rs) && rs[k+1] < 128 && rs[k+2] < 128 && isHex(byte(rs[k+1])) && isHex(byte(rs[k+2]))):
+							wb2.WriteString("%25")
+						default:
+							wb2.WriteRune(x)
+						}
+					}
+					if enc2 != wb2.String() {
+						c.Report(Finding{Class: "violation", What: fmt.Sprintf("percent-encoding %q with set %s under percent-encode-single-percent-sign gives %q, expected %q", s, setSpec(set), enc2, wb2.String()), Case: cs})
+					}
+					if m := unhx(d.Ask("ENC " + sc.ID + " " + setSpec(set) + " " + hx(s))); m != enc2 {
+						c.Report(Finding{Class: "correspondence", What: fmt.Sprintf("PercentEncodeString(%q) under percent-encode-single-percent-sign: model %q, implementation %q", s, m, enc2), Case: cs})
+					}
+				}
 				// model
 				if m := unhx(d.Ask("ENC default " + setSpec(set) + " " + hx(s))); m != enc {
 					c.Report(Finding{Class: "correspondence", What: fmt.Sprintf("PercentEncodeString(%q): model %q, implementation %q", s, m, enc), Case: cs})
